@@ -134,6 +134,7 @@ def strip(src,m):
     src=re.sub(r'([(,]\s*)_:',r,src)
     src=src.replace('cbor::ser::into_writer(','crate::vprelude::into_writer_vec(')
     src=src.replace('cbor::de::from_reader(','crate::vprelude::from_reader_slice(')
+    src=src.replace("text.trim() != text","crate::vprelude::str_ne_string(text.trim(), text)")
     src=re.sub(r"(\w+)\.matches\('/'\)\.count\(\)",r"crate::vprelude::str_count_matches(&\1, '/')",src)
     vals={'Alg':1,'Crit':2,'ContentType':3,'Kid':4,'Iv':5,'PartialIv':6,'CounterSignature':7}
     kvals={'Kty':1,'Kid':2,'Alg':3,'KeyOps':4,'BaseIv':5}
@@ -200,7 +201,8 @@ use vstd::prelude::*;
 use crate::*;
 use ciborium::value::Value;
 verus!{
-#[verifier::external_body] pub fn sig_from_cbor_value__stub(v: Value) -> Result<CoseSignature> { CoseSignature::from_cbor_value(v) }
+pub uninterp spec fn sig_accepts(v: Value) -> bool;
+#[verifier::external_body] pub fn sig_from_cbor_value__stub(v: Value) -> (r: Result<CoseSignature>) ensures r is Ok <==> sig_accepts(v) { CoseSignature::from_cbor_value(v) }
 #[verifier::external_body] pub fn sig_to_cbor_value__stub(s: CoseSignature) -> Result<Value> { s.to_cbor_value() }
 #[verifier::external_body] pub fn sigs_to_cbor_array__stub(s: alloc::vec::Vec<CoseSignature>) -> Result<Value> { crate::util::to_cbor_array(s) }
 #[verifier::external_body] pub fn recipient_from_cbor_value__stub(v: Value) -> Result<CoseRecipient> { CoseRecipient::from_cbor_value(v) }
